@@ -12,7 +12,7 @@ RULE = ('(any step may run in a helper thread that is started and joined at once
         'depth, max_seq_len, sort_dict_keys}) / get_default_config() / print(value, entry point, explicitly passed subset '
         'of {indent, width, ribbon_width, depth, max_seq_len, sort_dict_keys}, end string) with entry point in {pformat, '
         'pprint to a StringIO, pprint to a redirected sys.stdout, cpprint with colour off, cpprint with colour on (SGR '
-        'stripped), a PrettyPrinter object constructed earlier in the history, pretty_repr of a registered type, PrettyPrinter(**explicit).pformat, PrettyPrinter(**explicit).pprint, one PrettyPrinter(stream, settings by keyword or in the positional order of pprint.PrettyPrinter) used for both methods, pprint / cpprint / PrettyPrinter writing to a sink that is falsy while empty, pretty_repr nested in pretty_repr through an object printed with repr(), '
+        'stripped), a PrettyPrinter object constructed earlier in the history, pretty_repr of a registered type, PrettyPrinter(**explicit).pformat, PrettyPrinter(**explicit).pprint, one PrettyPrinter(stream, settings by keyword or in the positional order of pprint.PrettyPrinter) used for both methods, pprint / cpprint / PrettyPrinter writing to a sink that is falsy while empty, pretty_repr nested in pretty_repr through an object printed with repr(), pretty_repr of an object whose repr was taken before its class got a printer / after a call that raised, '
         'pformat / pprint with indent, width, depth passed positionally, pretty_repr of an instance of a subclass that only inherits the printer, pretty_repr as the very first use of a fresh class (or of a subclass of it) whose '
         'printer is registered by name}. '
         'Exhaustive: every single setting explicit-vs-default x every entry point after each single-setting '
@@ -36,7 +36,7 @@ DOMAIN = {
 DEFAULTABLE = ['width', 'ribbon_width', 'depth', 'max_seq_len', 'sort_dict_keys']
 ENTRIES = ['pformat', 'pprint_stream', 'pprint_stdout', 'cpprint_off', 'cpprint_on', 'pretty_repr', 'PP.pformat', 'PP.pprint',
            'pformat_positional', 'pprint_positional', 'pretty_repr_byname', 'pretty_repr_sub', 'pretty_repr_byname_sub', 'PP.one_object', 'PP.positional',
-           'pretty_repr_nested', 'pprint_falsy_stream', 'cpprint_falsy_stream', 'PP.falsy_stream']
+           'pretty_repr_nested', 'pprint_falsy_stream', 'cpprint_falsy_stream', 'PP.falsy_stream', 'pretty_repr_late', 'pretty_repr_after_raise']
 VALUES = [
     ['dict', [[['str', 'b'], ['list', [['int', 1], ['int', 2], ['int', 3]]]], [['str', 'a'], ['tuple', [['str', 'x y'], ['none']]]], [['str', 'c'], ['int', 0]]]],
     ['list', [['list', [['list', [['int', 1], ['str', 'deep']]], ['int', 2]]], ['dict', [[['int', 2], ['int', 1]], [['int', 1], ['int', 2]]]], ['str', 'lorem ipsum dolor sit amet']]],
@@ -106,6 +106,40 @@ def _fresh_byname_box(v, subclass=False):
     def _p(value, ctx):
         return pretty_call(ctx, 'ppv_cfg_byname.ByNameBox', value.v)
     return cls(v)
+
+
+_late_counter = [0]
+
+
+def _late_box(v, entry):
+    """a fresh class with __repr__ = pretty_repr and an instance of it that has a history: 'late' - repr() was taken
+    (with the documented warning) BEFORE the class got its printer; 'after_raise' - an earlier repr() raised because the
+    printer returned a non-document"""
+    import warnings
+    from prettyprinter import register_pretty, pretty_call, pretty_repr
+    _late_counter[0] += 1
+    cls = type('LateBox', (), {'__repr__': pretty_repr, '__init__': lambda self, v: setattr(self, 'v', v)})
+    cls.__module__ = 'ppv_cfg_late'
+    cls.__qualname__ = 'LateBox'
+    obj = cls(v)
+    state = {'bad': entry == 'pretty_repr_after_raise'}
+    if entry == 'pretty_repr_late':
+        with warnings.catch_warnings():
+            warnings.simplefilter('ignore')
+            repr(obj)
+
+    @register_pretty(cls)
+    def _p(value, ctx):
+        if state['bad']:
+            return 5
+        return pretty_call(ctx, 'ppv_cfg_late.LateBox', value.v)
+    if state['bad']:
+        try:
+            repr(obj)
+        except ValueError:
+            pass
+        state['bad'] = False
+    return obj
 
 
 def enumerate_cases(tier):
@@ -327,6 +361,9 @@ def oracle(case):
             if entry == 'pretty_repr_sub':
                 value = _setup['sub'](value)
                 explicit = {}
+            if entry in ('pretty_repr_late', 'pretty_repr_after_raise'):
+                value = _late_box(value, entry)
+                explicit = {}
             if entry == 'pretty_repr_nested':
                 # registered > unregistered (printed through repr()) > registered: pretty_repr runs inside pretty_repr
                 value = CfgBox(_setup['holder'](CfgBox(value)))
@@ -350,7 +387,7 @@ def oracle(case):
                 if entry in ('pretty_repr_byname', 'pretty_repr_byname_sub'):
                     got = byname_first
                     ref_cmp = ref
-                elif entry in ('pretty_repr', 'pretty_repr_sub', 'pretty_repr_nested'):
+                elif entry in ('pretty_repr', 'pretty_repr_sub', 'pretty_repr_nested', 'pretty_repr_late', 'pretty_repr_after_raise'):
                     import warnings as _w
                     with _w.catch_warnings(record=True) as _ws:
                         _w.simplefilter('always')
